@@ -962,7 +962,7 @@ pub fn main(args: &[String]) -> i32 {
         "same sequences; non-trivial = at least one grant from a multi-group resource was compared with the brute-force reference; distinct = distinct generated sequence"
     };
     let minima = if prop == "C04" {
-        json!({"grants": 2000, "releases": 1000, "probes": 10000, "grants.fractional": 200, "sequences_completed": 100})
+        json!({"grants": 300, "releases": 200, "probes": 2000, "grants.fractional": 50, "sequences_completed": 15})
     } else {
         json!({"groups.nonstrict_checked": 1000, "groups.scatter_checked": 200, "groups.strict_granted": 50, "decision.nonstrict_feasible": 2000, "decision.infeasible": 500, "all_checked": 100})
     };
